@@ -19,7 +19,7 @@ Definition ex_exports : json :=
 Example scope_ex1 : in_scope_exports ex_exports (s_ "./features/a/b.js") = true.
 Proof. vm_compute. reflexivity. Qed.
 Example resolve_ex1 :
-  outcome_of_model (exports_resolve slash_s (s_ "./features/a/b.js") (parse ex_exports) [s_ "node"; s_ "import"])
+  outcome_of_model (exports_resolve slash_s (s_ "./features/a/b.js") (parse_top ex_exports) [s_ "node"; s_ "import"])
   = OResolved (s_ "/src/features/a/b.js").
 Proof. vm_compute. reflexivity. Qed.
 Example scope_ex2 : in_scope_exports ex_exports (s_ "./features/internal/x") = true
@@ -52,12 +52,19 @@ Example order_ex :
   = [s_ "./ab*"; s_ "./a*b"; s_ "./a*"; s_ "./*"].
 Proof. vm_compute. reflexivity. Qed.
 
-(* the scope predicates do exclude the refuted witnesses *)
+(* the scope predicates do exclude the witnesses that are still refuted ... *)
 Example scope_excludes :
-  in_scope_exports w_pattern_base (s_ "./foo") = false /\ in_scope_exports w_upper (s_ "./x") = false
-  /\ in_scope_exports w_star_all (s_ "./../secret.js") = false /\ in_scope_exports w_dup (s_ "./a") = false
-  /\ in_scope_exports w_mixed (s_ "./a") = false /\ in_scope_exports w_index (s_ "./a") = false
-  /\ in_scope_imports w_hash_slash (s_ "#/a") = false /\ in_scope_imports w_url_target (s_ "#fs") = false.
+  in_scope_exports w_pattern_base (s_ "./foo") = false /\ in_scope_exports w_dup (s_ "./a") = false
+  /\ in_scope_exports w_index (s_ "./a") = false
+  /\ in_scope_imports w_hash_slash (s_ "#/a") = false /\ in_scope_imports w_url_target (s_ "#fs") = false
+  /\ in_scope_imports w_imports_mixed (s_ "#a") = false.
+Proof. repeat split; vm_compute; reflexivity. Qed.
+(* ... and the witnesses of the repaired findings D2 / D4 are now inside the domain *)
+Example scope_includes_repaired :
+  in_scope_exports w_upper (s_ "./x") = true /\ in_scope_exports w_pct (s_ "./x") = true
+  /\ in_scope_exports w_star_all (s_ "./../secret.js") = true
+  /\ in_scope_exports w_star_all (s_ "./node_modules/s.js") = true
+  /\ in_scope_exports w_mixed (s_ "./a") = true.
 Proof. repeat split; vm_compute; reflexivity. Qed.
 
 (* keys with several "*" and empty-segment-free odd layouts are inside the domain *)
@@ -72,12 +79,9 @@ Proof. split; vm_compute; reflexivity. Qed.
 Example witness_shapes :
   (documented_ok w_pattern_base (s_ "./foo") && fragment_ok w_pattern_base (s_ "./foo")
    && negb (no_refuted_shape false w_pattern_base (s_ "./foo")) && shape_pattern_base (s_ "./foo") (s_ "./foo*")
-   && documented_ok w_upper (s_ "./x") && fragment_ok w_upper (s_ "./x")
-   && negb (no_refuted_shape false w_upper (s_ "./x")) && shape_segment_target (s_ "./lib/NODE_MODULES/x.js")
-   && documented_ok w_star_all (s_ "./../secret.js") && fragment_ok w_star_all (s_ "./../secret.js")
-   && negb (no_refuted_shape false w_star_all (s_ "./../secret.js")) && shape_segment_match (s_ "../secret.js")
    && documented_ok w_dup (s_ "./a") && fragment_ok w_dup (s_ "./a") && negb (no_refuted_shape false w_dup (s_ "./a"))
-   && documented_ok w_mixed (s_ "./a") && fragment_ok w_mixed (s_ "./a") && negb (no_refuted_shape false w_mixed (s_ "./a"))
+   && documented_ok w_imports_mixed (s_ "#a") && fragment_ok w_imports_mixed (s_ "#a")
+   && negb (no_refuted_shape true w_imports_mixed (s_ "#a")) && shape_imports_top_mixed w_imports_mixed
    && documented_ok w_index (s_ "./a") && fragment_ok w_index (s_ "./a") && negb (no_refuted_shape false w_index (s_ "./a"))
    && documented_ok w_hash_slash (s_ "#/a") && fragment_ok w_hash_slash (s_ "#/a")
    && negb (no_refuted_shape true w_hash_slash (s_ "#/a")) && shape_hash_slash (s_ "#/a")
@@ -116,24 +120,19 @@ Example ex_fs_bare :
   = NFile (p_ ["node_modules"; "dep"; "src"; "features"; "a.js"]).
 Proof. split; vm_compute; reflexivity. Qed.
 
-(* the detectors of the three object shapes fire on their witnesses, at the exact object *)
+(* the detectors of the two object shapes fire on their witnesses, at the exact object *)
 Example witness_object_shapes :
   (shape_dup_key [(s_ "./a", JStr (s_ "./x.js")); (s_ "./a", JStr (s_ "./y.js"))]
-   && negb (shape_mixed_keys [(s_ "./a", JStr (s_ "./x.js")); (s_ "./a", JStr (s_ "./y.js"))])
    && negb (shape_index_key [(s_ "./a", JStr (s_ "./x.js")); (s_ "./a", JStr (s_ "./y.js"))])
-   && shape_mixed_keys [(s_ "node", JStr (s_ "./x.js")); (s_ "./b", JStr (s_ "./y.js"))]
-   && negb (shape_dup_key [(s_ "node", JStr (s_ "./x.js")); (s_ "./b", JStr (s_ "./y.js"))])
-   && negb (shape_index_key [(s_ "node", JStr (s_ "./x.js")); (s_ "./b", JStr (s_ "./y.js"))])
    && shape_index_key [(s_ "0", JStr (s_ "./x.js")); (s_ "default", JStr (s_ "./y.js"))]
    && negb (shape_dup_key [(s_ "0", JStr (s_ "./x.js")); (s_ "default", JStr (s_ "./y.js"))])
-   && negb (shape_mixed_keys [(s_ "0", JStr (s_ "./x.js")); (s_ "default", JStr (s_ "./y.js"))])) = true.
+   && negb (shape_imports_top_mixed w_hash_slash)) = true.
 Proof. vm_compute. reflexivity. Qed.
 
 (* package_resolve_eq_partial: its hypotheses hold on the example tree for a bare specifier *)
 Example ex_fs_bare_hyps :
   wf_fsb ex_fs = true /\ no_tsb ex_fs = true /\ no_case_collision ex_fs = true
   /\ bare_ok (s_ "dep/features/a") = true /\ is_package_path (s_ "dep/features/a") = true
-  /\ nearest_crosses_nm ex_fs 1 (p_ ["src"]) = false
   /\ in_scope_exports ex_exports (subpath_of (s_ "dep/features/a")) = true.
 Proof. repeat split; vm_compute; reflexivity. Qed.
 Example ex_fs_pkgs_ok : pkgs_ok ex_fs (s_ "dep/features/a").
@@ -144,11 +143,6 @@ Proof.
          end; try discriminate; injection Hd as <-; cbn in He; try discriminate;
     injection He as <-; split; [discriminate | vm_compute; reflexivity].
 Qed.
-(* the D12 witness violates exactly the scope hypothesis *)
-Example ex_scope_shape :
-  nearest_crosses_nm w_scope_fs 2 (pw_ ["node_modules"; "nopkg"]) = true
-  /\ bare_ok (s_ "rootpkg") = true /\ no_case_collision w_scope_fs = true.
-Proof. exact scope_witness_shape. Qed.
 (* ES-module entry: no extension search, legacy main *)
 Example ex_fs_import :
   import_resolve (fun _ => false) ex_fs [] (p_ ["src"]) (s_ "./util") = NNotFound
